@@ -218,7 +218,9 @@ class Env:
         self.name = "verif_c17_m%d" % next(_uid)
         self.mod = types.ModuleType(self.name)
         sys.modules[self.name] = self.mod
-        d = self.mod.__dict__
+        # keep the dict itself: once the module binds a name `__dict__`, CPython's specialised
+        # LOAD_ATTR for module attributes may hand out that binding for `mod.__dict__`
+        d = self.ns = self.mod.__dict__
         self.bound = []          # module-level names that get a tag (position + 1)
         self.bn = kind == "names"
         self.poisons = {}
@@ -383,7 +385,7 @@ class TextClass(g.ClassUnderTest):
             text = '@H["deco"](**H["kw"])\nclass %s(*H["bases"]):\n%s\nK_ = %s\n' % (qual, "\n".join(body), qual)
         self.text = text
         self.H = H
-        d = self.env.mod.__dict__
+        d = self.env.ns
         d["H"] = H
         try:
             exec(compile(text, "<c17 %s>" % self.env.name, "exec"), d)
@@ -1308,15 +1310,15 @@ def getattr_cases(seed, has_original, which=None):
                  "ca": attrs.field(default=1), "og": og}
             text = ('@H["deco"]\nclass K:\n    x = H["ca"]\n    cp = H["cp"]\n' +
                     ('    __getattr__ = H["og"]\n' if has_original else '') + 'K_ = K\n')
-            e.mod.__dict__["H"] = H
+            e.ns["H"] = H
             try:
-                exec(compile(text, "<c17 %s>" % e.name, "exec"), e.mod.__dict__)
+                exec(compile(text, "<c17 %s>" % e.name, "exec"), e.ns)
             except Exception as ex:
                 out.append(prop_case(False, {"family": "getattr", "has_original": has_original, "variant": kind, "seed": seed},
                                      {"definition_error": [type(ex).__name__, str(ex)], "class_source": text},
                                      {"family": "getattr", "module": kind, "what": "definition-fails"}))
                 continue
-            cls = e.mod.__dict__["K_"]
+            cls = e.ns["K_"]
             f = cls.__dict__["__getattr__"]
             beh = []
             i = cls(5)
@@ -1421,7 +1423,7 @@ def hist_case(plan, which=None):
     """plan: {"defs": [[qual, body_id, keep]], ...}"""
     e = Env("clean")
     try:
-        d = e.mod.__dict__
+        d = e.ns
         d["H"] = {"s": attr.s, "ib": attr.ib, "make_class": attr.make_class}
         files, classes = [], []
         for qual, body_id, keep in plan["defs"]:
@@ -1448,7 +1450,7 @@ def thr_case(plan):
     e = Env("clean")
     old = sys.getswitchinterval()
     try:
-        d = e.mod.__dict__
+        d = e.ns
         d["H"] = {"s": attr.s, "ib": attr.ib, "make_class": attr.make_class}
         n = len(plan["threads"])
         results = [[] for _ in range(n)]
